@@ -9,7 +9,7 @@ from ..source import get_source
 from ..grammar import get_grammar
 from ..emission import get_emission, deferred_positions
 from ..runtime import get_runtime, returned_exprs
-from ..finite import Evaluator, AV, Unknown, AbsRaise, const_av, ERROR_STRINGS
+from ..finite import evaluator_for, Evaluator, AV, Unknown, AbsRaise, const_av, ERROR_STRINGS
 from ..symeval import Tok
 from .common import (check_plumbing, check_atomic, function_token_of, skeleton_of, all_skeletons, _shape)
 
@@ -126,7 +126,7 @@ def r3(run: Run, src, g, em, rt):
                 if lst is None or lst.items is None or VALUE not in lst.items:
                     raise Unknown('_find_error_in_list is not applied to [value]')
                 return const_av('#N/A') if is_err else AV('none')
-            ev = Evaluator(cp.members, hooks={'<call>': lam, '_find_error_in_list': find_err})
+            ev = evaluator_for(cp, hooks={'<call>': lam, '_find_error_in_list': find_err})
             construct = f'_iferror[{cp.label}]/{label}'
             try:
                 r = ev.call_method('_iferror', [AV('func', val='guarded'), FALLBACK])
@@ -158,7 +158,28 @@ def r4(run: Run, rt):
         if fn is None:
             run.bad('C13.R4', f'_find_error_in_list[{cp.label}]', 'missing', 'helper missing', loc=cp.path)
             continue
-        table = error_table(fn)
+        try:
+            table = error_table(fn)
+        except AnalysisError as e_:
+            # not a membership test in one constant list: decide what the helper recognises by abstract evaluation (engine F)
+            from ..finite import evaluator_for, Evaluator, AV, const_av, Unknown, AbsRaise
+            cands = list(ERROR_STRINGS) + ['#ERROR!', '#DIV0!', '#1 priority', '#1024', '#A17', '# note', '#high', 'abc', '']
+            for _n, m_ in cp.members.items():
+                for r_ in returned_exprs(m_):
+                    for c_ in ast.walk(r_):
+                        if isinstance(c_, ast.Constant) and isinstance(c_.value, str) and c_.value.startswith('#') and c_.value not in cands:
+                            cands.append(c_.value)
+            table = []
+            for cand in cands:
+                ev = evaluator_for(cp, max_depth=6)
+                try:
+                    res = ev.call_method('_find_error_in_list', [AV('list', items=(const_av(5), const_av(cand), const_av('x')))])
+                except (Unknown, AbsRaise) as u:
+                    raise AnalysisError('C13.R4', f'_find_error_in_list[{cp.label}]: neither a constant table ({e_.reason[:60]}) nor '
+                                                  f'followed by the abstraction ({u})')
+                from ..finite import truth
+                if res.kind != 'none' and truth(res):
+                    table.append(cand)
         for es in ERROR_STRINGS:
             run.check(es in table, 'C13.R4', f'error-table[{cp.label}]/{es}', 'missing-error-value',
                       f'the Excel error value {es} is not recognised by _find_error_in_list (table {table})', fact='recognised',
